@@ -1,6 +1,7 @@
 import TFV.Properties.Adapt
 import TFV.Properties.Src.ShadeParams
 import TFV.Properties.Src.Greedy
+import TFV.Properties.Src.ShadeBook
 #print axioms TFV.Adapt.C15_randc01_range
 #print axioms TFV.Adapt.C15_randc01_progress
 #print axioms TFV.Adapt.C15_randn01_range
@@ -19,3 +20,4 @@ import TFV.Properties.Src.Greedy
 #print axioms TFV.SrcTie.C15_src_shade_generate_F_CR
 #print axioms TFV.SrcTie.C15_src_shade_update_u_F
 #print axioms TFV.SrcTie.C15_src_jde_greedy
+#print axioms TFV.SrcTie.C15_src_shade_bookkeeping
